@@ -88,7 +88,13 @@ POSITIONS = [
     "x = {E}", "x, z = {E}, 1", "q += {E}", "if {E}:\n    q = 1", "if q:\n    q = 1\nelif {E}:\n    q = 2", "while {E}:\n    break", "for i in range({E}):\n    q = i", "items = [{E}, 1]", "items.append({E})", "items.remove({E})",
     "mon.write(f\"{{{E}}}\")", "def f1(p={E}):\n    return p", "@{E}\ndef f2():\n    return 1", "x = y[{E}]", "def f3():\n    return {E}\nx = f3()", "x = [{E} for i in range(2)]", "x = abs({E})", "x = len({E})",
     "while True:\n    sleep({E})", "while True:\n    x = {E}",
+    # keyword spellings (those of the host signatures and those only the transpiler knows)
+    "sv.write_us(pulse={E})", "sv.write_us(pulse_us={E})", "m.set_speed(value={E})", "m.set_speed(speed={E})", "bz.melody(name={E})", "bz.melody(melody={E})", "u4 = Ultrasonic(2, 3, model={E})",
+    "mon3 = SerialMonitor(baud_rate={E})", "mon3 = SerialMonitor(baud={E})", "sleep(duration={E})", "sleep(ms={E})", "sv.write(angle={E})", "led.blink(duration_ms={E})", "bz.play_tone(frequency={E})",
+    "rgb.on(red={E})", "lcd.line(row=0, text={E})", "lcd.nosuch_keyword(zz={E})", "led.toggle(extra={E})",
 ]
+# ordinary argument values: every position is also transpiled with each of these (twice in one interpreter by the worker)
+PLAIN = ["5", "1500", "0.5", "q", "\"siren\"", "True", "q + 1", "[1, 0]", "None"]
 
 STATEMENTS = [
     "from Reduino_boards.uno import LED_PIN", "from Reduino_boards import uno", "import Reduino_boards.uno", "from Reduinox.y import z", "from Reduino.nosuch.deep import thing", "from Reduino.Actuators.nosuch import Led2",
@@ -136,6 +142,8 @@ def gen(tier: str) -> Iterator[dict]:
         for ei, expr in enumerate(ILL_TYPED):
             yield {"id": f"T:{pi}:{ei}", "kind": "illtyped", "src": base + pos.replace("{E}", expr) + "\n"}
             yield {"id": f"T:{pi}:{ei}:list", "kind": "illtyped", "src": base + pos.replace("{E}", "[" + expr + "]") + "\n"}
+        for ei, expr in enumerate(PLAIN):
+            yield {"id": f"P:{pi}:{ei}", "kind": "plain", "src": base + pos.replace("{E}", expr) + "\n"}
         for ei, expr in enumerate(EXPENSIVE):
             yield {"id": f"XL:{pi}:{ei}", "kind": "expensive", "src": base + pos.replace("{E}", "[" + expr + "]") + "\n"}
     for si, stmt in enumerate(STATEMENTS):
@@ -154,6 +162,17 @@ def gen(tier: str) -> Iterator[dict]:
         "deepnest": "".join("    " * i + "if q:\n" for i in range(60)) + "    " * 60 + "q = 1\n",
         "longline": "x = [" + ", ".join(["1"] * 20000) + "]\n",
         "manylines": "q = q + 1\n" * 5000,
+        # constants built from earlier constants: shared structure that a later fold or print must not expand
+        "listdag": "x0 = [1, 1]\n" + "".join(f"x{i + 1} = [x{i}, x{i}]\n" for i in range(40)) + "lab = f\"{x40}\"\nmon.write(lab)\n",
+        "listdag_str": "x0 = [1, 1]\n" + "".join(f"x{i + 1} = [x{i}, x{i}]\n" for i in range(40)) + "mon.write(str(x40))\nmon.write(len(x40))\n",
+        "listdag_plus": "x0 = [1, 1]\n" + "".join(f"x{i + 1} = x{i} + x{i}\n" for i in range(40)) + "mon.write(len(x40))\n",
+        "listdag_mul": "x0 = [1, 1]\n" + "".join(f"x{i + 1} = x{i} * 2\n" for i in range(40)) + "mon.write(len(x40))\n",
+        "tupledag": "t0 = (1, 1)\n" + "".join(f"t{i + 1} = (t{i}, t{i})\n" for i in range(40)) + "mon.write(f\"{t40}\")\n",
+        "strdag": "s0 = \"ab\"\n" + "".join(f"s{i + 1} = s{i} + s{i}\n" for i in range(40)) + "mon.write(s40)\nmon.write(len(s40))\n",
+        "fstrdag": "s0 = \"ab\"\n" + "".join(f"s{i + 1} = f\"{{s{i}}}-{{s{i}}}\"\n" for i in range(40)) + "lcd.line(0, s40)\n",
+        "helperdag": "".join(f"def h{i}(v):\n    return " + (f"h{i - 1}(v) + h{i - 1}(v)" if i else "v + 1") + "\n" for i in range(40)) + "mon.write(h39(1))\n",
+        "condchain": "x = " + " < ".join(["q"] * 40) + "\n",
+        "nestedcmp": "x = " + "(" * 12 + "1 < q < 3" + " < 3)" * 12 + "\n",
     }
     for name, body in growth.items():
         yield {"id": f"G:{name}", "kind": "growth", "src": base + body}
